@@ -201,6 +201,16 @@ def break_synth_search(ctx, shim, r, nfonts, per_font, pc, pt):
                        groups=F.synth_groups(r, nfonts), make=synth_make, classify=F.synth_known_class)
 
 
+def break_fraction_search(ctx, shim, r, nfonts, per_font, pc, pt):
+    metamorphic_search(ctx, shim, r, per_font, pc, pt, False, "break-fraction", F.verify_break, [0, 0, pc],
+                       "breaking at unflagged cluster starts changes the result",
+                       "fonts with fraction features (synthetic frac / numr / dnom fonts over Latin / Hebrew + the fonts under tests/fonts that "
+                       "name such a feature) x texts of digit runs, U+2044 FRACTION SLASH, letters, spaces x directions l, r, t, b x levels "
+                       "0/1; then as break-safety-ot",
+                       groups=F.fraction_groups(r, nfonts), make=lambda r, g, fl, k: F.make_fraction_shaping(r, g, fl),
+                       classify=F.fraction_known_class)
+
+
 def carry_search(ctx, shim, r, n, pc, pt):
     """the flag-preservation contract of delete_glyph / delete_glyphs_inplace / merges as an oracle on the crate alone"""
     lines = [F.carry_walk(r, pc, pt) for _ in range(n)]
@@ -250,13 +260,14 @@ def run(ctx):
     interior_search(ctx, shim, ctx.rng("interior"), ctx.budget(20000, 300000))
     carry_search(ctx, shim, ctx.rng("carry-exact"), ctx.budget(10000, 200000), pc, pt)
     break_synth_search(ctx, shim, ctx.rng("break-synth"), ctx.budget(200, 4000), 12, pc, pt)
+    break_fraction_search(ctx, shim, ctx.rng("break-fraction"), ctx.budget(20, 300), ctx.budget(20, 60), pc, pt)
     break_search(ctx, shim, ctx.rng("break-ot"), ctx.budget(60, 1200), pc, pt, False, "break-safety-ot")
     break_search(ctx, shim, ctx.rng("break-aat"), ctx.budget(150, 4000), pc, pt, True, "break-safety-aat")
 
 
 def replay(ctx, rp):
     shim = vlib.build_harness()
-    if rp.get("stream", "").startswith("break-safety"):
+    if rp.get("stream", "").startswith("break-"):
         s = F.shaping_from_replay(rp)
         o = F.verify_break(shim, [s])[0]
         print("request:", s.line)
